@@ -289,6 +289,23 @@ CLAIMS = {
         design="§7 C12",
         note=TB + "A static audit of other nondeterminism sources (sets, globals, function attributes) is not automated; the sweep is the tie.",
     ),
+    "C14": dict(
+        technique="Lean 4 frame theorems for any number of successive replacements over the generic AST + differential run of the composite annotate/find/rewrite pipeline; file-level predicate with an independent resolver",
+        text=(
+            "Kernel-checked on the model the driver runs: rewriteMany_frame (after ANY number of (address, replacement) "
+            "pairs applied one after the other, every statement none of the addresses touches is still at its index with an "
+            "identical tree) and rewriteMany_length, built on visit_untouched / visitItems_frame / visit_replaced. The "
+            "composite pipeline of sync_property (annotate_ancestry, find_in_ast on the input, RewriteAtQuery on the output, "
+            "'replaced' assertion) is executed by the model driver and compared with the real function on the same trees "
+            "for every generated case without wrap/eval (find_in_ast itself is an executable, not yet proved, model). The "
+            "predicate works on real files: input byte-identical, output parses, every non-addressed node identical, the "
+            "addressed nodes carry the input's annotation (wrapped by the template, or the Literal of the evaluated values), "
+            "an unresolvable address is an error that leaves the output untouched. wrap and eval are covered by the "
+            "predicate only."
+        ),
+        design="§7 C14",
+        note=TB + "eval() of the input module and str.format of the wrap template run for real; find_in_ast findings of C15 are inherited.",
+    ),
 }
 
 PENDING_REASON = "check not built yet in this round (work in progress; see DESIGN.md §10 build order) — not a claim that the technique cannot apply"
